@@ -31,19 +31,52 @@ structure Sess where
   /-- the pointer-level model (Model/PTree.lean), run alongside: the dump is printed from its heap -/
   pt  : PTree.PT := {}
   pit : Option PTree.PIter := none
+  /-- `keys=buf`: the shim presents keys as arena records compared by content (spec / model key = content); the dump
+  then carries `!kp` per node — is the stored key pointer still the first one inserted for that content?  The C
+  code keeps the old key when a value is replaced and re-links nodes on removal, so the model's answer is always 1 -/
+  buf : Bool := false
+  /-- `phys=quiet`: a checksum of the tree instead of the dump (the dump on `observe`) -/
+  quiet : Bool := false
 
 def fmtTree : Tree → String
   | .nil => "."
   | .node c l k v r => s!"({if c = .black then "B" else "R"} {k}:{v} {fmtTree l} {fmtTree r})"
 
 /-- the dump of the pointer-level heap: colour, key:value, `#id^parent-id`, children (pre-order) -/
-def fmtPT (h : PTree.Heap) : Nat → Nat → String
+def fmtPT (h : PTree.Heap) (buf : Bool := false) : Nat → Nat → String
   | 0, _ => "..."
   | f + 1, n =>
     if n = PTree.S then "." else
     let nd := h.get n
     let par := if nd.parent = PTree.S then "S" else toString nd.parent
-    s!"({if nd.color = .black then "B" else "R"} {nd.key}:{nd.value}#{n}^{par} {fmtPT h f nd.left} {fmtPT h f nd.right})"
+    let kp := if buf then "!1" else ""
+    s!"({if nd.color = .black then "B" else "R"} {nd.key}:{nd.value}#{n}^{par}{kp} {fmtPT h buf f nd.left} {fmtPT h buf f nd.right})"
+
+/-- FNV-1a 64 over the 8 little-endian bytes of a token (`harness/tree_common.h: fnv_tok`) -/
+def fnvTok (h x : UInt64) : UInt64 := Id.run do
+  let mut h := h
+  for i in [0:8] do
+    h := (h ^^^ ((x >>> (8 * i).toUInt64) &&& 0xff)) * 1099511628211
+  return h
+
+/-- the checksum of `phys=quiet` (`sum_node`): pre-order, sentinel link 0, node: 1/2 (black/red), key, value, id,
+parent id, with `keys=buf` also kp (always 1 in the model) -/
+def sumPT (h : PTree.Heap) (buf : Bool) : Nat → Nat → UInt64 → UInt64
+  | 0, _, a => fnvTok a 4
+  | f + 1, n, a =>
+    if n = PTree.S then fnvTok a 0 else
+    let nd := h.get n
+    let a := fnvTok a (if nd.color = .black then 1 else 2)
+    let a := fnvTok a nd.key.toUInt64
+    let a := fnvTok a nd.value.toUInt64
+    let a := fnvTok a n.toUInt64
+    let a := fnvTok a nd.parent.toUInt64
+    let a := if buf then fnvTok a 1 else a
+    sumPT h buf f nd.right (sumPT h buf f nd.left a)
+
+def hex16 (x : UInt64) : String :=
+  let d := "0123456789abcdef".toList.toArray
+  String.mk ((List.range 16).map fun i => d[((x >>> (4 * (15 - i)).toUInt64) &&& 0xf).toNat]!)
 
 /-- a node pointer of the iterator: key (inductive model), node id (pointer-level model) and position (the C
 shim computes the position by climbing the parent pointers) -/
@@ -85,12 +118,24 @@ def obsM (t : Option TreeTable) : String :=
   | none => "keys=[] vals=[] size=0"
   | some t => s!"keys={fmtList t.foreachKey} vals={fmtList t.foreachValue} size={t.size}"
 def obsS (f : Option OrdMap) : String := content (f.getD [])
-def phys (s : Sess) (cmps : Nat) : String :=
+def phys (s : Sess) (cmps : Nat) (full : Bool := false) : String :=
   match s.model with
   | none => "-"
-  | some t => s!"size={t.size} cmps={cmps} it={fmtIter t.root s.pt s.pit s.iter} tree={fmtPT s.pt.heap (s.pt.size + 1) s.pt.root}"
+  | some t =>
+    let tree := if s.quiet && !full then s!"tree#={hex16 (sumPT s.pt.heap s.buf (s.pt.size + 1) s.pt.root 14695981039346656037)}"
+                else s!"tree={fmtPT s.pt.heap s.buf (s.pt.size + 1) s.pt.root}"
+    s!"size={t.size} cmps={cmps} it={fmtIter t.root s.pt s.pit s.iter} {tree}"
+
+/-- `t.Inv cmp` in linear time (the `Decidable` instance of `Sorted` = `List.Pairwise` is quadratic; the scale stream
+holds > 1000 keys): adjacent entries in order — for the harness comparators, all total orders
+(`Properties/C03.cmpOf_total`), this is the pairwise order — the red-black rules, the size -/
+def adjSorted (cmp : Nat → Nat → Int) : List (Nat × Nat) → Bool
+  | a :: b :: l => decide (cmp a.1 b.1 < 0) && adjSorted cmp (b :: l)
+  | _ => true
+def invB (cmp : Nat → Nat → Int) (t : TreeTable) : Bool :=
+  adjSorted cmp t.root.toList && decide t.root.RB && t.size == t.root.size
 def inv (s : Sess) : Bool :=
-  match s.model with | none => true | some t => decide (t.Inv (cmpOf s.which)) && ptAgrees s.pt t
+  match s.model with | none => true | some t => invB (cmpOf s.which) t && ptAgrees s.pt t
 
 /-- header of a result: status, out-value, callback log -/
 def hdr (st : Option Stat) (val : Option Nat) (cb : Option (List Nat)) (noout : Bool := false) : String :=
@@ -102,7 +147,7 @@ def lineS (hd : String) (s : Sess) (full : Bool := false) : String :=
   if s.sparse && !full then s!"S {hd} " else s!"S {hd} {obsS s.spec}"
 def lineM (hd : String) (s : Sess) (cmps : Nat) (full : Bool := false) : String :=
   let obs := if s.sparse && !full then "" else obsM s.model
-  s!"M {hd} {obs} | {phys s cmps} | {fmtMem s.mem} | {fmtFlags (inv s) s.mem}"
+  s!"M {hd} {obs} | {phys s cmps full} | {fmtMem s.mem} | {fmtFlags (inv s) s.mem}"
 
 /-- table operation of the history vocabulary named by a protocol line -/
 def parseOp (c : Cmd) : Option Op :=
@@ -136,7 +181,8 @@ def step (s : Sess) (c : Cmd) : Sess × String × String :=
     -- `new_default`: the library's default constructor, i.e. the C library's allocator triple
     let (st, t, m) := TreeTable.newT (if c.op == "new_default" then .libc else .conf) m
     let (sst, sp) : Stat × Option OrdMap := if c.fired > 0 then (.errAlloc, none) else (.ok, some [])
-    let s' : Sess := { which := c.nat "cmp" 0, model := t, spec := sp, mem := m, sparse := c.str "obs" == some "sparse", pt := PTree.new }
+    let s' : Sess := { which := c.nat "cmp" 0, model := t, spec := sp, mem := m, sparse := c.str "obs" == some "sparse", pt := PTree.new,
+                       buf := c.str "keys" == some "buf", quiet := c.str "phys" == some "quiet" }
     (s', lineS (fmtStat sst) s', lineM (fmtStat st) s' 0)
   | _ =>
   match s.model, s.spec with
@@ -149,7 +195,13 @@ def step (s : Sess) (c : Cmd) : Sess × String × String :=
       let pt' := ptStep cmp s.pt op (o.st != some Stat.errAlloc)
       let s' : Sess := { s with model := some t', spec := some f', mem := m, pt := pt' }
       let cb (o : Out) := if isForeach op then some o.log else none
-      (s', lineS (hdr so.st so.val (cb so) noout) s', lineM (hdr o.st o.val (cb o) noout) s' n)
+      -- a strict successor / predecessor query with an ABSENT key: the property text ("the nearest existing key or
+      -- not-found when none exists") does not say that the query key must be present; the code answers not-found.  A
+      -- library that answered with the nearest existing key would satisfy the text: no verdict at L1 (M stays exact)
+      let absentQuery := match op with
+        | .greaterThan k | .lesserThan k => !(OrdMap.contains f k)
+        | _ => false
+      (s', if absentQuery then "S ?" else lineS (hdr so.st so.val (cb so) noout) s', lineM (hdr o.st o.val (cb o) noout) s' n)
     | none =>
     match c.op with
     | "it_new" =>
@@ -189,7 +241,7 @@ def step (s : Sess) (c : Cmd) : Sess × String × String :=
       (s', lineS "st=-" s' true, lineM "st=-" s' 0 true)
     | "destroy" =>
       let m := t.destroy m
-      let s' : Sess := { which := s.which, mem := m, sparse := s.sparse }
+      let s' : Sess := { which := s.which, mem := m, sparse := s.sparse, buf := s.buf, quiet := s.quiet }
       (s', lineS "st=-" s', lineM "st=-" s' 0)
     | _ => (s, "S st=- badop", "M st=- badop")
   | _, _ =>
